@@ -60,6 +60,14 @@ func sizeFor(class string, mtu int, part int) int {
 		return mtu
 	case "half":
 		return mtu / 2
+	case "mtu+1":
+		return mtu + 1
+	case "mtu+part":
+		return mtu + part
+	case "mtu+2part":
+		return mtu + 2*part
+	case "mtu+5part+1":
+		return mtu + 5*part + 1
 	}
 	return min(64, mtu)
 }
@@ -75,6 +83,10 @@ func clamp(x, lo, hi int) int {
 }
 
 var sizeClasses = []string{"0", "1", "15", "16", "small", "small", "part-1", "part", "part+1", "2part+1", "mtu-1", "mtu", "half"}
+
+// c01Classes additionally probes just above the advertised MTU: such a payload must either be refused or,
+// if Tell accepts it, arrive intact like any other.
+var c01Classes = append(append([]string{}, sizeClasses...), "mtu+1", "mtu+part", "mtu+2part", "mtu+5part+1")
 
 func addrText(a p2p.Addr) string {
 	b, err := a.MarshalText()
@@ -250,6 +262,12 @@ func multiPart(s stack.Spec) bool {
 
 func checkC01(t *rapid.T, sub string, bases []string, maxDepth int, noKinds map[string]bool, maxSends int, settle time.Duration) {
 	spec := genSpec(t, specOpts{maxDepth: maxDepth, bases: bases, noKinds: noKinds, smallMTUs: true, honestFrag: false})
+	if bases[0] == "mem" && rapid.IntRange(0, 5).Draw(t, "oversizeFragTop") == 0 {
+		// a fragmenting layer on top whose configured MTU needs more parts than its 8-bit fields can count:
+		// MTU() must be honest about it and Tell must refuse what lies between MTU() and the configured value
+		inner := rapid.SampledFrom([]int{64, 100, 256}).Draw(t, "innerMTU")
+		spec = stack.Spec{Base: "mem", BaseMTU: inner, QueueLen: 4096, Layers: []stack.Layer{{Kind: "frag", MTU: (inner-15)*256 + rapid.IntRange(inner, 40*inner).Draw(t, "over")}}}
+	}
 	nNodes := rapid.IntRange(2, 4).Draw(t, "nodes")
 	w, err := stack.Build(spec, nNodes, 0)
 	if err != nil {
@@ -261,11 +279,25 @@ func checkC01(t *rapid.T, sub string, bases []string, maxDepth int, noKinds map[
 	var sends []send
 	group := 0
 	var classes []string
+	if rapid.IntRange(0, 3).Draw(t, "fanIn") == 0 && nNodes >= 3 {
+		// fan-in burst: every other node tells node 0 a multi-part message of the same shape at the same
+		// moment, as the first thing it ever sends (equal per-sender counters and timestamps)
+		class := rapid.SampledFrom([]string{"2part+1", "part+1", "half", "mtu"}).Draw(t, "fanInSize")
+		for src := 1; src < nNodes; src++ {
+			sz := sizeFor(class, mtu, part)
+			if sz > 300000 {
+				sz = 300000
+			}
+			sends = append(sends, send{src: src, dst: 0, class: class, size: sz, vec: 1, group: group})
+			classes = append(classes, "fanin:"+class)
+		}
+		group++
+	}
 	for i := 0; i < nSends; i++ {
 		s := send{}
 		s.src = rapid.IntRange(0, nNodes-1).Draw(t, "src")
 		s.dst = (s.src + rapid.IntRange(1, nNodes-1).Draw(t, "dstOff")) % nNodes
-		s.class = rapid.SampledFrom(sizeClasses).Draw(t, "size")
+		s.class = rapid.SampledFrom(c01Classes).Draw(t, "size")
 		s.size = sizeFor(s.class, mtu, part)
 		if s.size > 300000 {
 			s.size = 300000 // keep the huge QUIC MTU cases affordable
